@@ -8,7 +8,8 @@ VERIF_DIR=$(cd "$(dirname "$0")/.." && pwd)
 work=$(mktemp -d /dev/shm/mutcheck-XXXX)
 trap 'git -C /repo worktree remove --force "$work/repo" 2>/dev/null; rm -rf "$work"; git -C /repo worktree prune' EXIT
 git -C /repo worktree add -q --detach "$work/repo" HEAD || exit 2
-git -C "$work/repo" apply "$VERIF_DIR/seeded/$name/patch.diff" || { echo "PATCH-DOES-NOT-APPLY"; exit 3; }
+patch="$VERIF_DIR/seeded/$name/patch.diff"; [ -d "$name" ] && patch="$name/patch.diff"
+git -C "$work/repo" apply "$patch" || { echo "PATCH-DOES-NOT-APPLY"; exit 3; }
 (cd "$VERIF_DIR" && VERIF_REPO="$work/repo" VERIF_EVIDENCE_DIR=/dev/shm/mut-evidence-$$ VERIF_SEED=${VERIF_SEED:-1} ./check "$prop" --tier "$tier" > "$work/out.log" 2>&1); rc=$?
 what=$(grep -a -m1 "rapid\] failed\|rapid\] flaky\|rapid\] panic\|^    [a-z0-9_]*_test.go:[0-9]*: [a-zA-Z]" "$work/out.log" | cut -c1-300)
 case $rc in 1) v=CAUGHT;; 0) v=MISSED;; *) v=INCONCLUSIVE;; esac
